@@ -391,6 +391,17 @@ func IPv6FindUpperProtocol(packet []byte) (nextHeader uint8, offset int, isFragm
 			return nextHeader, offset, isFragment, anyFragment, nil
 		}
 	}
+
+	// We walked maxIPv6ExtHeaders extension headers without reaching a terminal protocol inside the loop. What
+	// follows must be a terminal protocol whose header starts inside the packet, anything else means the upper
+	// layer protocol was not found and must not be reported as if it was.
+	switch nextHeader {
+	case 0, 43, 44, 51, 60:
+		return nextHeader, offset, isFragment, anyFragment, ErrIPv6CouldNotFindPayload
+	}
+	if offset > len(packet) {
+		return nextHeader, offset, isFragment, anyFragment, ErrIPv6CouldNotFindPayload
+	}
 	return nextHeader, offset, isFragment, anyFragment, nil
 }
 
